@@ -184,7 +184,17 @@ fn judge_curve2(case: &Case, l: &mut Local) {
             let m = a + b;
             normals.push(if m.norm() > 0.5 { Some(m.normalize()) } else { None });
         }
-        if normals.iter().all(|x| x.is_some()) && n >= 3 {
+        // a vertex lying on an edge it does not belong to (a curve touching itself) has no single closest station,
+        // so its vote is not defined
+        let seg_dist = |q: &Point2, a: &Point2, b: &Point2| { let ab = b - a; let t = ((q - a).dot(&ab) / ab.norm_squared()).clamp(0.0, 1.0); (q - (a + ab * t)).norm() };
+        let touching = (0..n).any(|i| (0..ne).any(|e| {
+            let adjacent = e == i || e + 1 == i || (closed && ((i == 0 && e == ne - 1) || (i == n - 1 && e == 0)));
+            !adjacent && seg_dist(&v[i], &v[e], &v[e + 1]) <= 1e-9
+        }));
+        if touching {
+            l.gray("votes of surface points on a curve that touches itself");
+        }
+        if !touching && normals.iter().all(|x| x.is_some()) && n >= 3 {
             // the library's own convention for the side of the normal, read off the first edge
             let lib_sign = c.at_length(0.5 * c.lengths()[1]).map(|st| st.normal().dot(&edge_n[0])).unwrap_or(0.0).signum();
             for (flip, minority) in [(1.0, false), (-1.0, false), (1.0, true), (-1.0, true)] {
